@@ -95,6 +95,7 @@ class KeyValueExecutableSpec(ExecutableSpec):
 
     def __hash__(self) -> int:
         # Consistent with `__eq__`: the order of the key-value pairs does not matter.
+        hash(self.key_value_pairs)  # the pairs themselves must be hashable (a tuple of tuples)
         return hash((self.executable_family, frozenset(self.key_value_pairs)))
 
 
